@@ -254,6 +254,88 @@ def static_tables_fallback():
     return T
 
 
+# ----------------------------------------------------------------------------- byte layer tie
+
+def _bsp_state(b):
+    """The implementation's BSP object as the byte-layer model's `Bsp` value."""
+    B = U.impl()
+    lumps = []
+    for i in range(64):
+        l = b.lumps[B.BSP_LUMPS(i)]
+        lumps.append([l.version & 0xFFFFFFFF, list(l.data), bool(l.is_compressed)])
+    game = [[int.from_bytes(g.id[::-1], 'little'), g.flags, g.version, list(g.data)] for g in b.game_lumps.values()]
+    ver = b.version.value if isinstance(b.version, B.VERSIONS) else b.version
+    magic = b'FART' if b.is_vitamin else b'VBSP'
+    return {'magic': int.from_bytes(magic, 'little'), 'version': ver & 0xFFFFFFFF, 'revision': b.map_revision & 0xFFFFFFFF,
+            'lumps': lumps, 'game': game}
+
+
+def _lzma_table(state, compress):
+    pairs, seen = [], set()
+    for i, (ver, data, comp) in enumerate(state['lumps']):
+        if comp and i != 40 and bytes(data) not in seen:
+            seen.add(bytes(data)); pairs.append([data, list(compress(bytes(data)))])
+    for gid, flags, ver, data in state['game']:
+        if flags & 1 and bytes(data) not in seen:
+            seen.add(bytes(data)); pairs.append([data, list(compress(bytes(data)))])
+    return pairs
+
+
+def layout_tie(ctx, drv, files, tmp):
+    """Model `readFile` vs BSP.read on the synthesised originals; model `writeFile` vs the bytes BSP.save writes
+    (after no reads and after reading every view)."""
+    B = U.impl()
+    from srctools.binformat import compress_lzma
+    names = U.view_names()
+    reqs, meta = [], []
+    for f in files:
+        raw = pathlib.Path(f.path).read_bytes()
+        if len(raw) > 200000 and not ctx.thorough:
+            continue
+        try:
+            with U.quiet():
+                b = B.BSP(f.path)
+                st = _bsp_state(b)
+                l4d2 = b.game_ver is B.GameVersion.L4D2
+                comp = synth.source_lzma if f.variant is not None else compress_lzma
+                reqs.append({'op': 'readfile', 'l4d2': l4d2, 'file': list(raw), 'lzma': _lzma_table(st, comp)})
+                meta.append(('read', f, st, l4d2))
+                for mode in ('none', 'all'):
+                    b = B.BSP(f.path)
+                    if mode == 'all':
+                        for n in names:
+                            getattr(b, n)
+                    out = os.path.join(tmp, 'layout_out.bsp')
+                    b.save(out)
+                    st2 = _bsp_state(b)
+                    reqs.append({'op': 'layout', 'l4d2': b.game_ver is B.GameVersion.L4D2, 'bsp': st2,
+                                 'lzma': _lzma_table(st2, compress_lzma)})
+                    meta.append(('write:' + mode, f, pathlib.Path(out).read_bytes(), None))
+        except Exception as e:
+            ctx.notes.append(f'layout tie skipped for {f.label}: {type(e).__name__}: {e}')
+    if not reqs:
+        return
+    for (kind, f, want, l4d2), rep in zip(meta, drv.batch(reqs)):
+        case = {'file': f.label, 'layout': kind}
+        ctx.case(case, nontrivial=True, sample_every=29)
+        ctx.count('layout:' + kind.split(':')[0])
+        if kind == 'read':
+            got = rep.get('bsp')
+            if got != want:
+                ctx.disagree(case, 'BSP.read state', first_diff(want, got, 'bsp'), 'byte layer: readFile vs BSP.read')
+                continue
+            if want['version'] == 21 and rep.get('looksL4D2') != l4d2:
+                ctx.disagree(case, {'l4d2': l4d2}, {'looksL4D2': rep.get('looksL4D2')}, 'byte layer: L4D2 detection')
+                continue
+        else:
+            got = bytes(rep.get('file', []))
+            if got != want:
+                i = next((k for k in range(min(len(got), len(want))) if got[k] != want[k]), min(len(got), len(want)))
+                ctx.disagree(case, f'{len(want)} bytes', f'{len(got)} bytes, first difference at offset {i}', 'byte layer: writeFile vs the bytes BSP.save wrote')
+                continue
+        ctx.traces_vs_impl += 1
+
+
 # ----------------------------------------------------------------------------- the check
 
 def _run_all(ctx, drv, T):
@@ -265,6 +347,8 @@ def _run_all(ctx, drv, T):
         impl_names = U.view_names()
         if sorted(impl_names) != sorted(T['names']):
             ctx.disagree({'what': 'view names'}, sorted(impl_names), sorted(T['names']), 'Gen.Bsp views vs ParsedLump attributes')
+        if drv is not None:
+            layout_tie(ctx, drv, files, tmp)
         reqs, pend = [], []
         order = list(range(len(files)))
         for fi in order:
